@@ -61,19 +61,33 @@ def case_key(c) -> str:
             for it in val).rstrip(".")
     if c["fam"] == "A":
         return "literal:" + cls(c["defs"][0]["val"])
+    if c["fam"] == "F":
+        return f"filter-{c['filter']}:" + ",".join(d["name"] for d in c["defs"]) + ":" + "|".join(cls(d["val"]) for d in c["defs"])
     return "order:" + ",".join(d["name"] for d in c["defs"]) + ":" + "|".join(cls(d["val"]) for d in c["defs"])
 
 
-def _env_via_config(defs_txt, wdir):
-    """Load the definitions through the real WorkflowConfig; return the task's environment mapping."""
+def _env_via_config(defs_txt, wdir, filt="none"):
+    """Load the definitions through the real WorkflowConfig; return the task's environment mapping.
+    filt = "incl" / "excl" (family F): the definitions, with UNUSED inserted second, sit in a parent family and the
+    task selects them with an [environment filter]."""
     from cylc.flow.config import WorkflowConfig
     from cylc.flow.scheduler_cli import RunOptions
     os.makedirs(wdir, exist_ok=True)
-    lines = ["[scheduling]", "    [[graph]]", "        R1 = t", "[runtime]", "    [[t]]", "        script = true",
-             "        [[[environment]]]"]
+    lines = ["[scheduling]", "    [[graph]]", "        R1 = t", "[runtime]"]
+    if filt == "none":
+        lines += ["    [[t]]", "        script = true", "        [[[environment]]]"]
+    else:
+        lines += ["    [[FAM]]", "        [[[environment]]]"]
+        defs_txt = [defs_txt[0], ("UNUSED", "not wanted")] + list(defs_txt[1:])
     for name, text in defs_txt:
         assert '"' not in text and "\\" not in text and "\n" not in text and text == text.strip()
         lines.append(f'            {name} = "{text}"')
+    if filt != "none":
+        lines += ["    [[t]]", "        inherit = FAM", "        script = true", "        [[[environment filter]]]"]
+        if filt == "incl":
+            lines.append("            include = " + ", ".join(n for n, _ in reversed(defs_txt) if n != "UNUSED"))
+        else:
+            lines.append("            exclude = UNUSED")
     fpath = os.path.join(wdir, "flow.cylc")
     with open(fpath, "w") as f:
         f.write("\n".join(lines) + "\n")
@@ -135,7 +149,7 @@ def _run_batch(arg):
     for idx, defs_txt, via_config in items:
         try:
             if via_config:
-                env = _env_via_config(defs_txt, os.path.join(bdir, f"wf{idx}"))
+                env = _env_via_config(defs_txt, os.path.join(bdir, f"wf{idx}"), "none" if via_config is True else via_config)
             else:
                 env = OrderedDictWithDefaults()
                 for name, text in defs_txt:
@@ -202,9 +216,14 @@ def _compare(st, got, home, via):
 def check_states(ctx, states, home, via_config_every=1):
     import cylc.flow.job_file, cylc.flow.config, cylc.flow.scheduler_cli  # noqa: F401 (import once, before forking)
     work = []
-    nb = 0
+    nb = nf = 0
     for i, st in enumerate(states):
         defs_txt = [(d["name"], render_value(d["val"], home)) for d in st["c"]["defs"]]
+        if st["c"]["fam"] == "F":
+            nf += 1
+            if not via_config_every or nf % via_config_every == 0:
+                work.append((2 * i + 1, defs_txt, st["c"]["filter"]))
+            continue
         work.append((2 * i, defs_txt, False))
         if st["c"]["fam"] == "B":
             nb += 1
@@ -217,7 +236,8 @@ def check_states(ctx, states, home, via_config_every=1):
         results.update(r)
     bad = []
     for i, st in enumerate(states):
-        bad += [(k, t, st) for k, t in _compare(st, results[2 * i], home, False)]
+        if 2 * i in results:
+            bad += [(k, t, st) for k, t in _compare(st, results[2 * i], home, False)]
         if 2 * i + 1 in results:
             bad += [(k, t, st) for k, t in _compare(st, results[2 * i + 1], home, True)]
     return bad, len(work)
@@ -253,7 +273,9 @@ def run(ctx):
                       ", : / % ! * ? [ ] { } ( ) ; & | < > ^ @ + - . tab newline, 2 non-ASCII; leading ~ only as ~ and ~/rest); "
                       "family B: 3 variables in all 6 orders x values referring to earlier variables via $N / ${N} and to a "
                       "pre-set variable; non-trivial = contains a non-alphanumeric atom or a reference. Each family-B case is "
-                      "executed directly (ordered dict -> writer) and (quick: every 3rd, thorough: every) also via WorkflowConfig.", samples, exhaustive=True)
+                      "executed directly (ordered dict -> writer) and (quick: every 3rd, thorough: every) also via WorkflowConfig; "
+                      "family F: the family-B definitions inherited from a parent family and selected by an [environment filter] "
+                      "(include in reverse order / exclude of an extra variable), via WorkflowConfig (quick: every 3rd).", samples, exhaustive=True)
     ctx.coverage["bash_evaluations"] = n_exec
     ctx.assumptions += [
         "Literal domain = values without the characters bash treats specially inside an assignment: $ ` \\ \" (by the "
